@@ -121,6 +121,10 @@ def enumerate_cases(tier):
             yield {'kind': 'doc', 't': t, 'w': 20, 'style': sname, 'mode': 'true'}
     for sname in ('@dark', 'default'):
         yield {'kind': 'value', 'v': ['dict', []], 'width': 1, 'indent': 4, 'style': sname, 'mode': 'true', 'end': '\n'}
+    # a token most styles leave plain (punctuation, operator, variable name) inside a styled token: its characters are plain
+    for sname in names:
+        for outer, inner_tok in (('LITERAL_STRING', 'PUNCTUATION'), ('COMMENT_SINGLE', 'OPERATOR'), ('NUMBER_INT', 'NAME_VARIABLE'), ('NAME_FUNCTION', 'STRING_ESCAPE')):
+            yield {'kind': 'doc', 't': ['ann', ['tok', outer], ['cat', [['t', 'a'], ['ann', ['tok', inner_tok], ['t', ',']], ['t', 'c']]]], 'w': 20, 'style': sname, 'mode': 'true'}
     # nested annotations, D14 witness
     d14 = ['ann', ['tok', 'NUMBER_INT'], ['cat', [['t', 'a'], ['ann', 0, ['t', 'b']], ['t', 'c']]]]
     for sname in names:
